@@ -83,10 +83,24 @@ func (e *Engine) VerifyFunc(fn *ssa.Function, ct *FuncContract) (obls []*Obligat
 	entry := st.clone()
 	out, res := c.execFunction(fr, st)
 	if out.pc.S != "false" {
-		sc2 := c.contractScope(fn, ct, fv, args, out, entry, res)
-		for i, en := range ct.Ensures {
-			g := c.translateBool(sc2, en.E)
-			c.prove("ensures."+clauseLabel(en, i), "postcondition: "+en.Src, out.pc, g, nil)
+		// postconditions are proved separately on every return path (simpler queries, named by source order)
+		if len(fr.retVals) > 1 && ct.Opts["ensures"] != "merged" {
+			for k, rp := range fr.retVals {
+				sc2 := c.contractScope(fn, ct, fv, args, rp.st, entry, rp.val)
+				sc2.fr = fr
+				sc2.exitOf = rp.block
+				for i, en := range ct.Ensures {
+					g := c.translateBool(sc2, en.E)
+					c.prove(fmt.Sprintf("ensures.%s@ret%d", clauseLabel(en, i), k+1), fmt.Sprintf("postcondition on return path %d (%s): %s", k+1, e.pos(rp.pos), en.Src), rp.st.pc, g, nil)
+				}
+			}
+		} else {
+			sc2 := c.contractScope(fn, ct, fv, args, out, entry, res)
+			sc2.fr = fr
+			for i, en := range ct.Ensures {
+				g := c.translateBool(sc2, en.E)
+				c.prove("ensures."+clauseLabel(en, i), "postcondition: "+en.Src, out.pc, g, nil)
+			}
 		}
 		c.monitorExit(fr, out, ct)
 		if ct.Opts["frame"] != "skip" {
